@@ -147,6 +147,8 @@ pub fn is_conf_entry(e: &Entry) -> bool {
 pub struct UnstShadow {
     pub offset: u64,
     pub ents: Vec<(u64, u64, bool)>,
+    /// payload length of each unstable entry (C13 uncommitted-size accounting)
+    pub lens: Vec<usize>,
 }
 
 pub struct Outstanding {
@@ -536,6 +538,7 @@ impl World {
         UnstShadow {
             offset: u.offset,
             ents: u.entries.iter().map(|e| (e.term, entry_digest(e), is_conf_entry(e))).collect(),
+            lens: u.entries.iter().map(|e| e.get_data().len()).collect(),
         }
     }
 
@@ -642,6 +645,11 @@ impl World {
             None => return Ok(()),
         };
         let to = fl.msg.to;
+        if let Some(ls) = self.lockstep.as_mut() {
+            if ls.old_grants.contains(&k) {
+                ls.stale_grant_delivered = true;
+            }
+        }
         if !self.nodes.get(&to).map(|n| n.running()).unwrap_or(false) {
             self.bump("deliver_to_dead");
             return Ok(());
@@ -887,6 +895,7 @@ impl World {
                     node.disk.model.hs = hs.clone();
                     node.disk.queue(WriteItem::HardState(hs));
                 }
+                self.check_leader_msgs(n, light.messages(), 0)?;
                 let lmsgs = light.take_messages();
                 if !lmsgs.is_empty() {
                     let early = !self.nodes[&n].disk.wq.is_empty();
@@ -978,6 +987,14 @@ impl World {
     /// (false inside a Sync round before `advance()`, which does it itself).
     fn apply_entries(&mut self, n: NodeId, count: u32, notify: bool) -> VResult<()> {
         let mut applied_any = false;
+        // A defensive application does not apply stashed entries while raft holds an accepted but not
+        // yet handed-out snapshot (RawNode::snap()): they are all covered by it, and calling
+        // apply_conf_change for them would replay old membership changes onto the snapshot's
+        // configuration, which raft has already switched to (DESIGN.md, limits).
+        if self.nodes.get(&n).map(|x| x.running() && x.obs.snap_index != 0).unwrap_or(false) {
+            self.bump("apply_deferred_for_pending_snapshot");
+            return Ok(());
+        }
         for _ in 0..count {
             let e = {
                 let node = match self.nodes.get_mut(&n) {
@@ -1108,6 +1125,10 @@ impl World {
         r
     }
 
+    pub fn apply_sub(&mut self, a: &Action) -> VResult<()> {
+        self.apply_inner(a)
+    }
+
     fn apply_inner(&mut self, a: &Action) -> VResult<()> {
         match a {
             Action::Tick { n } => {
@@ -1129,6 +1150,11 @@ impl World {
                     let k2 = MsgKey { f: k.f, t: k.t, s: *seq };
                     self.flights.insert(k2, InFlight { msg: m, sender_inc: inc });
                     self.released.push(k2);
+                    if let Some(ls) = self.lockstep.as_mut() {
+                        if ls.old_grants.contains(k) {
+                            ls.old_grants.push(k2);
+                        }
+                    }
                     self.bump("msgs_duplicated");
                 }
             }
